@@ -68,7 +68,7 @@ ASSUMPTIONS = [
 MUST_REACH = {"inventory_nodes": 600, "text_roundtrips": 200, "legacy_llsd_roundtrips": 200, "ais_roundtrips": 200,
               "llsd_wire_roundtrips": 150, "model_roundtrips": 60, "ais_model_roundtrips": 40, "enum_members_swept": 100, "optional_absent": 300,
               "metadata_present": 100, "wearables": 40, "animations": 80, "anim_versions_covered": 2, "meshes": 40,
-              "mesh_segments_covered": 6, "xfer_sequences": 3000, "transfer_sequences": 1500, "out_of_order_completions": 500,
+              "mesh_segments_covered": 6, "meshes_edited_after_raw_parse": 15, "xfer_sequences": 3000, "transfer_sequences": 1500, "out_of_order_completions": 500,
               "duplicate_arrivals": 500, "boundary_sizes_covered": 20, "tz_covered": 3}
 
 TEXT_POOL = ["", "a", "New Script", "Object", "hello world", "é中\U0001f600", "quote\"s 'single'", "back\\slash", "{", "}", "a = b",
@@ -239,6 +239,7 @@ def inventory(ctx, n_models):
             if isinstance(n, InventoryItem) and n.inv_type is not None:
                 ctx.cover("inv_types", n.inv_type.name)
         shape_key = tuple(sorted((type(n).__name__, tuple(k for k, v in node_fields(n).items() if v is None)) for n in nodes))
+        pristine = [gen_spec.canon(node_fields(n)) for n in nodes]          # serialising must not change the model itself
         # ---- legacy text, model level
         wit = {"model": repr([node_fields(n) for n in nodes])[:1500]}
         try:
@@ -281,6 +282,10 @@ def inventory(ctx, n_models):
                 same_node(ctx, n, back.nodes.get(n.node_id), "llsd-" + cname, dict(wit, node=str(n.node_id)))
             if len(back.nodes) != len(nodes) or back != model:
                 ctx.violation(f"inventory-llsd-{cname}:model-differs", "the re-parsed model is not equal to the model", wit)
+        if [gen_spec.canon(node_fields(n)) for n in nodes] != pristine:
+            ctx.violation("inventory:serialising-mutates-model", "serialising an inventory model changed the model itself",
+                          {"model": repr(pristine)[:800]})
+        ctx.count("models_checked_unchanged")
         # ---- AIS LLSD, node level (how the client uses it) and as a whole model
         amodel = InventoryModel()
         aroot = rand_category(rng, UUID(int=0), ais=True)
@@ -611,6 +616,34 @@ def meshes(ctx, n):
                     for w0, w1 in zip(mat0.get("Weights", []), mat1.get("Weights", [])):
                         if [int(a[0]) for a in w0] != [int(a[0]) for a in w1] or any(abs(a[1] - b[1]) > 1 / 65535 for a, b in zip(w0, w1)):
                             ctx.violation("mesh:weights-changed", "vertex weights changed", dict(wit, before=repr(w0), after=repr(w1)))
+        # a model parsed WITH its raw segment bytes kept, then edited: the edited segments are the model
+        try:
+            ser_raw = meshmod.LLMeshSerializer(include_raw_segments=True)
+            mr = se.BufferReader("!", b1).read(ser_raw)
+            edited = None
+            for name, seg in mr.segments.items():
+                if isinstance(seg, list) and seg and isinstance(seg[0], dict) and seg[0].get("TriangleList"):
+                    seg[0]["TriangleList"] = list(seg[0]["TriangleList"]) + [[0, 0, 0]]
+                    edited = name
+                    break
+                if name == "skin":
+                    seg["pelvis_offset"] = 0.75
+                    edited = name
+                    break
+                if name == "hv_unknown":
+                    seg["anything"] = [9, 9]
+                    edited = name
+                    break
+            if edited is not None:
+                w = se.BufferWriter("!")
+                w.write(ser_raw, mr)
+                m3 = dec(w.copy_buffer())
+                ctx.count("meshes_edited_after_raw_parse")
+                if mesh_plain(m3, True)[1].get(edited) != mesh_plain(mr, True)[1].get(edited):
+                    ctx.violation("mesh:edited-segment-not-serialised", "a mesh parsed with its raw segment bytes kept and then edited "
+                                  "does not come back with the edit", dict(wit, segment=edited))
+        except Exception as e:
+            ctx.violation("mesh:raises:" + type(e).__name__, "mesh round trip with raw segments kept raised", dict(wit, exc=repr(e)[:300]))
         ctx.nontrivial(("mesh", tuple(sorted(m0.segments)), tuple(sorted(m0.raw_segments))))
 
 
